@@ -34,7 +34,6 @@ import (
 
 	"github.com/juev/hledger-lsp/internal/analyzer"
 	"github.com/juev/hledger-lsp/internal/ast"
-	"github.com/juev/hledger-lsp/internal/parser"
 	"github.com/juev/hledger-lsp/internal/server"
 )
 
@@ -147,7 +146,7 @@ func c18SetOf(l []string) map[string]bool {
 }
 
 func c18AnalyzeCase(text string, extAcc, extCom []string) map[string]any {
-	journal, _ := parser.Parse(text)
+	journal, _ := hxParse(text)
 	a := longLivedAnalyzer()
 	var res *analyzer.AnalysisResult
 	if extAcc == nil && extCom == nil {
@@ -348,7 +347,7 @@ func c18ServerCase(c *Ctx, ws c18WS, hasRoot bool, set [3]bool) map[string]any {
 	}
 	files := []J{}
 	for _, f := range ws.Files {
-		j, _ := parser.Parse(f.Text)
+		j, _ := hxParse(f.Text)
 		files = append(files, J{"name": f.Name, "text": hx(f.Text), "tree": journalJ(j)})
 	}
 	edges := [][]int{}
@@ -924,7 +923,7 @@ func genC18(c *Ctx) {
 		}
 		coms := append([]string{c18Pick(r, c18Coms), c18Pick(r, c18Coms)}, append(ownC, extC...)...)
 		text := c18Journal(c, own, ownC, nil, all, coms, 1+r.IntN(3))
-		if _, errs := parser.Parse(text); len(errs) > 0 {
+		if _, errs := hxParse(text); len(errs) > 0 {
 			c.Count("analyze.textWithParseError")
 		}
 		var ea, ec []string
@@ -955,7 +954,7 @@ func genC18(c *Ctx) {
 		ws := c18Workspace(c)
 		c.Count(fmt.Sprintf("ws.files%d", len(ws.Files)))
 		for _, f := range ws.Files {
-			if _, errs := parser.Parse(f.Text); len(errs) > 0 {
+			if _, errs := hxParse(f.Text); len(errs) > 0 {
 				c.Count("ws.fileWithParseError")
 			}
 		}
